@@ -1,10 +1,13 @@
 // C05 harness, part 4: fcppt::container::grid and fcppt::container::tree operations.
+// Compiled once per unit (-DC05_UNIT_GRIDS, -DC05_UNIT_TREES).
 #include "c05_common.hpp"
 
 #include <fcppt/container/grid/apply.hpp>
 #include <fcppt/container/grid/map.hpp>
 #include <fcppt/container/grid/object.hpp>
 #include <fcppt/container/grid/resize.hpp>
+#include <fcppt/container/grid/static_row.hpp>
+#include <fcppt/container/grid/static_row_type.hpp>
 #include <fcppt/container/tree/map.hpp>
 #include <fcppt/container/tree/object_impl.hpp>
 #include <fcppt/math/dim/comparison.hpp>
@@ -35,9 +38,38 @@ tree mk_tree(int kids)
   }
   return t;
 }
+// the same with elements that count as made by a continuation (tokens 1000..): a target to assign to
+[[maybe_unused]] tree mk_tree_cb(int kids)
+{
+  cb_scope const g{""};
+  tree t{T(1000)};
+  for (int i = 0; i < kids; ++i) t.push_back(T(1001 + i));
+  return t;
+}
 
+#ifdef C05_UNIT_GRIDS
 void grids()
 {
+  // grid(row, row): "constructs a grid from rows"; every combination of value categories of the two rows
+  for_cats<'r', 'l', 'c'>([&](auto c1)
+  {
+    for_cats<'r', 'l', 'c'>([&](auto c2)
+    {
+      using row = fcppt::container::grid::static_row_type<T, 2U>;
+      auto const mk_row = [] { return row{T(next_tok()), T(next_tok())}; };
+      run2<decltype(c1)::value, decltype(c2)::value>("grid::object(rows)", true, "2x2", mk_row, mk_row,
+          [](auto &&a, auto &&b) C05_CALL(grid(C05_FWD(a), C05_FWD(b))));
+    });
+  });
+
+  {
+    // three rows (only rvalue rows are accepted: is_static_row is asked about the unstripped type)
+    using row = fcppt::container::grid::static_row_type<T, 2U>;
+    auto const mk_row = [] { return row{T(next_tok()), T(next_tok())}; };
+    run3<'r', 'r', 'r'>("grid::object(rows)", true, "2x3", mk_row, mk_row, mk_row,
+        [](auto &&a, auto &&b, auto &&cc) C05_CALL(grid(C05_FWD(a), C05_FWD(b), C05_FWD(cc))));
+  }
+
   std::vector<std::pair<unsigned, unsigned>> shapes{{0U, 0U}, {1U, 1U}, {2U, 2U}, {3U, 1U}};
   if (thorough())
   {
@@ -142,7 +174,9 @@ void grids()
     run1<'c'>("grid::object(dim,value)", false, sh, [] { return T(next_tok()); }, [w, h](auto &&a) { return grid(grid::dim{w, h}, a); });
   }
 }
+#endif
 
+#ifdef C05_UNIT_TREES
 void trees()
 {
   for (int kids : thorough() ? std::vector<int>{0, 1, 2, 3} : std::vector<int>{0, 1, 2})
@@ -158,6 +192,12 @@ void trees()
       run1<C>("tree::operator=", true, sh, mk, [](auto &&a)
       {
         tree target{T(1000)};
+        target = C05_FWD(a);
+        return target;
+      });
+      run1<C>("tree::operator=", true, sh + "->tree with children", mk, [](auto &&a)
+      {
+        tree target{mk_tree_cb(2)};
         target = C05_FWD(a);
         return target;
       });
@@ -231,13 +271,15 @@ void trees()
     run1<decltype(c)::value>("tree::object(T)", true, "element", [] { return T(next_tok()); }, [](auto &&a) { return tree(C05_FWD(a)); });
   });
 }
+#endif
 }
 
 namespace c05
 {
-void drive_nested()
-{
-  grids();
-  trees();
-}
+#ifdef C05_UNIT_GRIDS
+void drive_grids() { grids(); }
+#endif
+#ifdef C05_UNIT_TREES
+void drive_trees() { trees(); }
+#endif
 }
